@@ -250,7 +250,7 @@ def run_case(rng, res, idx, stress=False):
 
 
 def plan(tier, seed):
-    n = tier_value(tier, 960, 24000)
+    n = tier_value(tier, 960, 80000)
     shards = tier_value(tier, 8, 14)
     per = n // shards
     return [dict(first=i * per, count=per, budget_s=tier_value(tier, 45, 420)) for i in range(shards)]
